@@ -43,7 +43,6 @@ func TestC07_Fallback(t *testing.T) {
 	rapid.Check(t, func(t *rapid.T) {
 		cmds, cls := gen.DB(t, gen.CmdOpts{Platforms: true, Unicode: rapid.IntRange(0, 3).Draw(t, "u") == 0}, []int{0, 1, 3, 10, 1})
 		db := gen.Load(t, cmds)
-		warmed := warmUp(t, db, cmds)
 		q, qc := gen.Query(t, cmds, []gen.QueryClass{"vocab", "typo", "typo", "typo", "fragment", "fragment", "one", "punct", "mixed", "unicode", "stop"})
 		q = stripNUL(q)
 		tr := true
@@ -56,6 +55,7 @@ func TestC07_Fallback(t *testing.T) {
 			// the never-left-empty claim holds for every limit: try the ones that truncate
 			opt.Limit = rapid.SampledFrom([]int{1, 1, 2, 3}).Draw(t, "limit")
 		}
+		warmed := warmUp(t, db, cmds, q, opt)
 		off := opt
 		off.UseFuzzy = false
 		rOff := db.SearchUniversal(q, off)
@@ -115,7 +115,7 @@ func TestC07_Fallback(t *testing.T) {
 				for i := range cmds {
 					// certainly eligible: all platforms requested or no platform declared, and a
 					// pipeline command when only pipelines are wanted
-					if !(opt.AllPlatforms || len(cmds[i].Platform) == 0) || (opt.PipelineOnly && !ref.IsPipeline(&cmds[i])) {
+					if !c07CertainlyEligible(&cmds[i], opt) {
 						continue
 					}
 					if ref.FoldSubsequence(q, c07Text(&cmds[i])) {
@@ -126,6 +126,30 @@ func TestC07_Fallback(t *testing.T) {
 		}
 		rec.Case(nontrivial, map[string]any{"db": gen.BriefDB(cmds, 5), "query": q, "options": optBrief(opt), "off": len(rOff), "on": len(rOn)}, labels...)
 	})
+}
+
+// c07CertainlyEligible: eligible under every reading of the platform rule - all platforms
+// requested, no platform declared, or a declared platform that is literally (ignoring
+// case) one of the platforms in force - and a pipeline command when only pipelines are wanted.
+func c07CertainlyEligible(c *database.Command, opt database.SearchOptions) bool {
+	if opt.PipelineOnly && !ref.IsPipeline(c) {
+		return false
+	}
+	if opt.AllPlatforms || len(c.Platform) == 0 {
+		return true
+	}
+	inForce := opt.Platforms
+	if len(inForce) == 0 {
+		inForce = []string{database.VerifHostPlatform()}
+	}
+	for _, p := range c.Platform {
+		for _, f := range inForce {
+			if strings.EqualFold(p, f) {
+				return true
+			}
+		}
+	}
+	return false
 }
 
 // TestC07_Known re-executes the stored reproduction of the listed known finding.
